@@ -79,6 +79,17 @@ def net(s):
     return ipaddress.ip_network(s)
 
 
+def v4nets(entries):
+    """The IPv4 networks of a preserve list.  A list may also name IPv6 networks (a dual-stack site preserving
+    its blocks of both families); for IPv4 addresses those entries say nothing."""
+    out = []
+    for e in entries or []:
+        n = ipaddress.ip_network(e)
+        if n.version == 4:
+            out.append(n)
+    return out
+
+
 def rand_net4(rng, plen=None):
     if plen is None:
         plen = rng.choice([0, 1, 2, 3, 4, 7, 8, 9, 12, 15, 16, 17, 23, 24, 25, 30, 31, 32, rng.randint(0, 32)])
@@ -115,7 +126,9 @@ def address_lists(rng, quick):
              ["10.0.0.0/24"], ["192.168.0.0/24", "172.16.0.0/16"], ["0.0.0.0/8", "128.0.0.0/9"], ["10.0.0.0/16", "10.0.0.0/8"],
              ["10.1.0.0/16", "10.0.0.0/8"], ["10.0.0.0/8", "10.1.0.0/16", "10.1.2.0/24"], list(RFC1918) + ["10.1.0.0/16"],
              ["192.168.128.0/17", "192.168.0.0/16", "172.20.0.0/14"], ["50.0.0.0/7", "51.2.0.0/15", "51.3.3.0/24"],
-             ["10.20.30.0"], ["10.0.0.0"], ["192.168.0.0", "11.11.0.0"]]
+             ["10.20.30.0"], ["10.0.0.0"], ["192.168.0.0", "11.11.0.0"],
+             # dual-stack lists: an IPv6 block before / between IPv4 blocks
+             ["2001:db8::/32", "203.0.113.0/24"], ["10.0.0.0/8", "fd00::/8", "11.11.11.0/24"], ["2001:db8:aa::/48", "11.11.11.11", "12.20.0.0/16"]]
     out = list(fixed)
     for _ in range(2 if quick else 8):
         out.append([rand_net4(rng, rng.choice([8, 16, 20, 24, 27, 30, 31, 32])) for _ in range(rng.randint(1, 3))])
@@ -151,7 +164,7 @@ def cfg_networks(cfg):
     pp = cfg.get("pp")
     pa = cfg.get("pa") or []
     pinned = list(README_DEFAULT_PREFIXES if pp is None else pp) + list(pa)
-    return [net(p) for p in pinned], [net(a) for a in pa]
+    return v4nets(pinned), v4nets(pa)
 
 
 def addresses(rng, cfg, n, extra_nets=()):
